@@ -44,6 +44,31 @@ CHECKS = {
   note='trusted: WinArgv.tla as transcription of the documented MS runtime rules (no Windows here), the .sln parser '
        'in harness/checks/c20.py, TLC; MSBuild projects are parsed, never built',
   design='5/C20'),
+ 'C01': dict(
+  technique='TLA+ design model of the quoting pipeline (Quote.tla -> MakeLang.tla -> ShLang.tla, composed in '
+            'MakeArgs.tla) model-checked with TLC; generated build scripts run through the real bfg9000, GNU Make '
+            'and /bin/sh with recording stubs; recorded executions validated by TLC (MakeArgs_Trace.tla)',
+  text='TLC checks exhaustively (all words up to the bound over 36 symbols, three Makefile contexts: recipe, plain '
+       'assignment, target-specific assignment) that bfg9000\'s quoting composed with models of Make and sh delivers '
+       'the word unchanged, with a vacuity guard (the pre-fix writer must fail on "#" and "\\;"). The same kind of '
+       'words are placed in 17 argument positions of generated scripts, built with the real tools, and TLC validates '
+       'for every declared slot that the started process received exactly the declared words (test-driver arguments '
+       'must split, by the sh model, into the child words); the sh model is cross-checked against the command lines '
+       'real Make handed to the shell.',
+  note='trusted: recording stubs (harness/stubs/rec.c), ShLang.tla for nested driver arguments (cross-checked '
+       'against dash), TLC; a failing slot is re-run alone before it is reported',
+  design='5/C01'),
+ 'C02': dict(
+  technique='TLA+ design model (Quote.tla -> NinjaLang.tla -> ShLang.tla in NinjaArgs.tla) model-checked with TLC; '
+            'generated scripts configured with the real Ninja backend, evaluated by the reference Ninja '
+            '(harness/ninja_ref.py, cross-checked against NinjaLang.tla) and run by /bin/sh; recorded executions '
+            'validated by TLC (MakeArgs_Trace.tla)',
+  text='Same contract and slot matrix as C01 with the Ninja backend: exhaustive design check of quoting + Ninja value '
+       'evaluation + sh, and trace validation of every declared slot against what the started process received.',
+  note='trusted: no ninja binary exists in the sandbox, so the Ninja semantics are my reading of the manual encoded '
+       'in NinjaLang.tla and implemented by harness/ninja_ref.py (the two are compared on every recorded cmd binding); '
+       'recording stubs; TLC',
+  design='5/C02'),
 }
 
 NOT_YET = {}
